@@ -21,4 +21,4 @@ python3 tools/derive_unit.py contracts/C26/write_txn.toml contracts/C04/commit_o
 python3 tools/derive_unit.py contracts/C23/search_events.toml contracts/C26/search_events.toml C26 search_events 'visibility_ok' \
   --not-covered "the other event types and front ends (see the C23 unit), delete / revive"
 python3 tools/derive_unit.py contracts/C27/handler_selection.toml contracts/C49/authsession_new.toml C49 authsession_new 'valid_at' \
-  --not-covered "AuthSession::new_reauth, auth_with_unix_pass, auth_ldap, OAuth2 drivers (other authentication paths of C49: see the other units)"
+  --not-covered "AuthSession::new_reauth, auth_ldap, OAuth2 drivers (other authentication paths of C49: see the other units; auth_with_unix_pass: unit unix_pass_auth)"
